@@ -791,5 +791,12 @@ seed("c20-shutdown-falls-through", "C20", "R-close-effects", "server.go",
 	}
 """, "second Shutdown closes the listeners again and waits")
 
+seed("c14-xtext-leading-plus-raw", "C14", "R-xtext-decodes-every-plus", "conn.go",
+"""	if !strings.Contains(val, "+") {
+		return val, nil
+	}""", """	if strings.IndexByte(val, '+') <= 0 {
+		return val, nil
+	}""", "a value starting with '+' is returned undecoded")
+
 json.dump(S, open(os.path.join(os.path.dirname(os.path.abspath(__file__)), "bank.json"), "w"), indent=1)
 print(len(S), "seeds")
